@@ -1,5 +1,5 @@
 (* C09 Prerequisite semantics and prerequisite events *)
-From LD Require Import Base F32 Data Model Ops Bucket Eval EvalFacts Pure Order Cycles Events Transparent.
+From LD Require Import Base F32 Data Model Ops Bucket Eval EvalFacts Pure Order Cycles Events Transparent Refine Standalone.
 
 (* met iff the flag exists, is not on the current path, its own evaluation completed, it is on, and it served
    exactly the required variation *)
@@ -68,3 +68,18 @@ Theorem C09_recorder_optional : forall re_ok re_match o1 o2 E P c f out1,
                strip (out_trace out2) = strip (out_trace out1).
 Proof. exact observers_are_transparent. Qed.
 Print Assumptions C09_recorder_optional.
+
+(* ---- the recorded result is what evaluating the prerequisite on its own returns ----
+   A nested evaluation of pf that completed (second component true: it did not abort), at any fuel n and below any
+   reference path, has the detail that evaluating pf by itself -- empty path, any fuel m >= n, in particular the fuel of a
+   top-level call -- returns (before the big-segments annotation that only a top-level result carries). *)
+Theorem C09_completed_nested_result_is_standalone : forall re_ok re_match o E P c n m chain pf d,
+  (n <= m)%nat -> p_eval re_ok re_match o E P c n chain pf = Done (d, true) ->
+  p_eval re_ok re_match o E P c m [] pf = Done (d, true).
+Proof. exact completed_nested_result_is_standalone. Qed.
+Print Assumptions C09_completed_nested_result_is_standalone.
+Theorem C09_recorded_result_is_standalone : forall re_ok re_match o E P c n m chain pf d s s',
+  Inv P s -> (n <= m)%nat -> eval_flag re_ok re_match o E P c n chain pf s = (Done (d, true), s') ->
+  p_eval re_ok re_match o E P c m [] pf = Done (d, true).
+Proof. exact recorded_result_is_standalone. Qed.
+Print Assumptions C09_recorded_result_is_standalone.
